@@ -21,9 +21,9 @@ NAME = "K"
 PROPERTY = "C14"
 RUNS = {"quick": 900, "thorough": 40000}
 RUN_WALL_CAP = 240.0
-REQUIRED_PROBES = {"quick": ["randomized_stage_ran", "exact_regime:k_ge_min_dim", "exact_regime:rank_one", "exact_regime:transpose_exact", "sdp_stage_k1", "sdp_stage_k2", "unequal_dims", "dim_scalar", "dim_omitted", "target_given", "non_hermitian", "projection", "own_upper_bound:dps2", "own_upper_bound:bilinear", "ppt_edge_operator"], "thorough": ["randomized_stage_ran", "exact_regime:k_ge_min_dim", "exact_regime:rank_one", "exact_regime:transpose_exact", "sdp_stage_k1", "sdp_stage_k2", "unequal_dims", "dim_scalar", "dim_omitted", "target_given", "non_hermitian", "projection", "result_differs_between_rng_states", "own_upper_bound:dps2", "own_upper_bound:bilinear", "ppt_edge_operator"]}
+REQUIRED_PROBES = {"quick": ["randomized_stage_ran", "exact_regime:k_ge_min_dim", "exact_regime:rank_one", "exact_regime:transpose_exact", "sdp_stage_k1", "sdp_stage_k2", "unequal_dims", "dim_scalar", "dim_omitted", "target_given", "non_hermitian", "projection", "own_upper_bound:dps2", "own_upper_bound:bilinear", "ppt_edge_operator", "two_operators_same_shape", "two_operators_k_ge_2", "target:just_below_attained"], "thorough": ["randomized_stage_ran", "exact_regime:k_ge_min_dim", "exact_regime:rank_one", "exact_regime:transpose_exact", "sdp_stage_k1", "sdp_stage_k2", "unequal_dims", "dim_scalar", "dim_omitted", "target_given", "non_hermitian", "projection", "result_differs_between_rng_states", "own_upper_bound:dps2", "own_upper_bound:bilinear", "ppt_edge_operator", "two_operators_same_shape", "two_operators_k_ge_2", "target:just_below_attained"]}
 COMPONENTS = {"real": ["toqito.matrix_props.sk_operator_norm incl. the randomised lower bound", "toqito.state_props.sk_vector_norm, schmidt_rank, schmidt_decomposition", "toqito.perms.swap / symmetric_projection", "toqito.channels.partial_trace / partial_transpose / realignment", "scipy.linalg.eigh, cvxpy + SCS/Clarabel"], "stub": ["numpy process-global legacy RNG state (set from the choice source; adversary draws between calls)"]}
-RULE = ("one run = one operator (density / PSD / projection of seeded rank / rank one / indefinite Hermitian / non-Hermitian; local dimensions 2..4, unequal allowed; k = 1..min dim; dim as list / scalar / omitted; effort 0..2; target set or not) "
+RULE = ("one run = one operator, or two operators of the same local dimensions and k used alternately (density / PSD / projection of seeded rank / rank one / indefinite Hermitian / non-Hermitian; local dimensions 2..4, unequal allowed; k = 1..min dim; dim as list / scalar / omitted; effort 0..2; target set or not) "
         "evaluated under 2..4 global-RNG states with adversary draws in between; non-trivial = the randomised stage executed (global RNG state advanced by the call); distinct = distinct digest of (operator, k, options, RNG states)")
 SHRINK_ORDER = ["config", "operator", "rng"]
 SLACK = 1e-4
@@ -41,16 +41,22 @@ def preload():
     import scipy.linalg  # noqa: F401
 
 
-def draw_operator(st, tier):
+def draw_operator(st, tier, like=None, prefer_k2=False):
     big = 12 if tier == "thorough" else 9
     d0, d1 = st.int_range(2, 4), st.int_range(2, 4)
     if st.draw(3) == 0:
         d0, d1 = st.choice([(2, 2), (2, 3), (3, 2)])
+    if prefer_k2 and like is None:
+        d0, d1 = st.choice([(3, 3), (3, 4), (4, 3), (4, 4), (3, 3)])
+    if like is not None:
+        d0, d1 = like["dims"]
     dims = [d0, d1]
     n = d0 * d1
     rng = st.nprng()
     cplx = bool(st.draw(2))
     kind = st.weighted([("density", 4), ("psd", 2), ("projection", 3), ("rank_one", 2), ("indefinite", 2), ("non_hermitian", 1), ("low_rank_psd", 2), ("ppt_edge", 1), ("hermitian_pq", 1)])
+    if kind == "ppt_edge" and like is not None:
+        kind = "density"
     if kind == "ppt_edge":
         # operators whose maximum over PPT states sits on a bound-entangled edge state (Horodecki families)
         fam = st.weighted([("2x4", 3), ("4x2", 2), ("3x3", 2)])
@@ -125,6 +131,15 @@ def draw_operator(st, tier):
     k = st.int_range(1, min(dims) + (1 if st.draw(4) == 0 else 0))
     if st.draw(3) and min(dims) > 1:
         k = st.int_range(1, max(1, min(dims) - 1))
+    if prefer_k2 and like is None and min(dims) >= 3:
+        k = st.int_range(2, min(dims) - 1)
+        if kind in ("rank_one", "indefinite", "non_hermitian", "hermitian_pq"):
+            kind = "density"
+            g = gin(n, n)
+            x = g @ g.conj().T
+            x = x / np.trace(x).real
+    if like is not None:
+        k = like["k"]
     effort = st.weighted([(1, 4), (0, 2), (2, 2)])
     if effort == 2 and n > big:
         effort = 1
@@ -204,65 +219,95 @@ def witnesses(x, k, dims, rng, starts=6, iters=25):
     return best
 
 
-def run(cs, tier, run_index):
-    quiet()
-    res = RunResult()
-    sk = _lib()
-    x, meta = draw_operator(cs.s("operator"), tier)
+class Subject:
+    pass
+
+
+def make_subject(cs, res, tier, stream, like=None, prefer_k2=False):
+    sub = Subject()
+    x, meta = draw_operator(cs.s(stream), tier, like=like, prefer_k2=prefer_k2)
+    sub.x, sub.meta, sub.x0 = x, meta, x.copy()
     dims, k = meta["dims"], meta["k"]
-    x0 = x.copy()
-    opn = float(np.linalg.norm(x, 2))
-    herm = np.allclose(x, x.conj().T)
+    sub.opn = float(np.linalg.norm(x, 2))
+    sub.herm = bool(np.allclose(x, x.conj().T))
     if dims[0] != dims[1]:
         res.probe("unequal_dims")
     res.probe("dim_" + meta["dim_arg"])
     if meta["target"] is not None:
         res.probe("target_given")
-    if not herm:
+    if not sub.herm:
         res.probe("non_hermitian")
     if meta["kind"] == "projection":
         res.probe("projection")
     if meta["kind"] == "ppt_edge":
         res.probe("ppt_edge_operator")
-    dim_arg = {"list": list(dims), "scalar": dims[0], "omitted": None}[meta["dim_arg"]]
-
+    sub.dim_arg = {"list": list(dims), "scalar": dims[0], "omitted": None}[meta["dim_arg"]]
     # reference values
-    rank = int(np.linalg.matrix_rank(x))
-    exact = None
+    sub.rank = int(np.linalg.matrix_rank(x))
+    sub.exact = None
     if k >= min(dims):
-        exact = ("k_ge_min_dim", opn)
-    elif rank == 1:
-        u, s, vh = np.linalg.svd(x)
-        exact = ("rank_one", float(s[0]) * sk_vec_norm(u[:, 0], k, dims) * sk_vec_norm(vh[0, :].conj(), k, dims))
-    wrng = cs.s("witness").nprng()
-    wit = witnesses(x, min(k, min(dims)), dims, wrng) if k < min(dims) else opn
-    psd = herm and float(np.linalg.eigvalsh((x + x.conj().T) / 2)[0]) >= -1e-8 * max(opn, 1)
+        sub.exact = ("k_ge_min_dim", sub.opn)
+    elif sub.rank == 1:
+        u, sv, vh = np.linalg.svd(x)
+        sub.exact = ("rank_one", float(sv[0]) * sk_vec_norm(u[:, 0], k, dims) * sk_vec_norm(vh[0, :].conj(), k, dims))
+    wrng = cs.s("witness:" + stream).nprng()
+    sub.wit = witnesses(x, min(k, min(dims)), dims, wrng) if k < min(dims) else sub.opn
+    sub.psd = sub.herm and float(np.linalg.eigvalsh((x + x.conj().T) / 2)[0]) >= -1e-8 * max(sub.opn, 1)
+    if meta["target"] is not None:
+        # place the target where the early exits are: just below a value the search can attain (proved by
+        # the randomised stage, the call leaves from inside the restart loop), just above it, or anywhere
+        mode = cs.s("config:" + stream).draw(4)
+        u = cs.s("config:" + stream).float01()
+        if mode <= 1:
+            meta["target"] = float(sub.wit * (1 - 0.03 * u) - 1e-9)
+            meta["target_mode"] = "just_below_attained"
+        elif mode == 2:
+            meta["target"] = float(sub.wit * (1 + 0.05 * u) + 1e-9)
+            meta["target_mode"] = "just_above_attained"
+        res.probe("target:" + meta.get("target_mode", "anywhere"))
     # with a target the routine may legitimately stop early with a looser (still valid) bracket
-    trans_exact = psd and min(dims) == 2 and max(dims) <= 3 and k == 1 and meta["effort"] >= 1 and rank > 1 and meta["target"] is None
-
+    sub.trans_exact = sub.psd and min(dims) == 2 and max(dims) <= 3 and k == 1 and meta["effort"] >= 1 and sub.rank > 1 and meta["target"] is None
     # own rigorous upper bound on the TRUE norm (not on the library's numbers): a valid lower bound can
     # never exceed it.  k = 1 and PSD: second level of the symmetric-extension hierarchy; otherwise (non-PSD
-    # or non-Hermitian, any k): bilinear relaxation.  One SDP per run, only where it is cheap.
-    own_upper = None
-    gate = cs.s("config").draw(3)
-    if k < min(dims) and rank > 1:
+    # or non-Hermitian, any k): bilinear relaxation.  One SDP per operator, only where it is cheap.
+    sub.own_upper = None
+    gate = cs.s("config:" + stream).draw(3)
+    if k < min(dims) and sub.rank > 1:
         small = min(dims)
         cost = max(dims) * small * (small + 1) // 2
-        if psd and k == 1 and cost <= (40 if tier == "thorough" else 24) and (meta["kind"] == "ppt_edge" or gate == 0):
-            own_upper = ("dps2", models.sk1_dps2_upper(x, dims))
-        elif not psd and dims[0] * dims[1] <= 16 and (meta["kind"] in ("hermitian_pq", "indefinite") or gate == 0):
-            own_upper = ("bilinear", models.sk_bilinear_upper(x, k, dims))
-        if own_upper is not None and own_upper[1] is None:
-            res.failed("model:" + own_upper[0] + "_sdp")
-            own_upper = None
-        if own_upper is not None:
-            res.probe("own_upper_bound:" + own_upper[0])
+        if sub.psd and k == 1 and cost <= (40 if tier == "thorough" else 24) and (meta["kind"] == "ppt_edge" or gate == 0):
+            sub.own_upper = ("dps2", models.sk1_dps2_upper(x, dims))
+        elif not sub.psd and dims[0] * dims[1] <= 16 and (meta["kind"] in ("hermitian_pq", "indefinite") or gate == 0):
+            sub.own_upper = ("bilinear", models.sk_bilinear_upper(x, k, dims))
+        if sub.own_upper is not None and sub.own_upper[1] is None:
+            res.failed("model:" + sub.own_upper[0] + "_sdp")
+            sub.own_upper = None
+        if sub.own_upper is not None:
+            res.probe("own_upper_bound:" + sub.own_upper[0])
+    sub.outcomes = []
+    return sub
+
+
+def run(cs, tier, run_index):
+    quiet()
+    res = RunResult()
+    sk = _lib()
+    subs = [make_subject(cs, res, tier, "operator", prefer_k2=(run_index % 8 == 7))]
+    # sometimes a second operator of the same local dimensions and the same k lives in the same history
+    # (whatever the routine keeps between calls under a key that ignores the operator meets another one)
+    if cs.s("config").draw(3) == 2 or run_index % 8 == 7:
+        subs.append(make_subject(cs, res, tier, "operator:2", like=subs[0].meta))
+        if subs[0].meta["k"] >= 2 and subs[0].meta["k"] < min(subs[0].meta["dims"]):
+            res.probe("two_operators_k_ge_2")
+        res.probe("two_operators_same_shape")
 
     rs = cs.s("rng")
-    n_states = rs.int_range(2, 4)
-    outcomes = []
+    n_states = rs.int_range(2, 4) + (2 if len(subs) > 1 else 0)
     stage_ran = 0
     for i in range(n_states):
+        sub = subs[rs.draw(len(subs))] if len(subs) > 1 else subs[0]
+        x, meta, opn = sub.x, dict(sub.meta, operator_index=subs.index(sub), operators=len(subs)), sub.opn
+        k = sub.meta["k"]
         seed = rs.draw(1 << 32)
         np.random.seed(seed)
         adv = rs.draw(4)
@@ -271,7 +316,7 @@ def run(cs, tier, run_index):
             res.fault("adversary_global_draws")
         before = global_state_digest()
         try:
-            out = sk(x, k, dim_arg, meta["target"], meta["effort"])
+            out = sk(x, k, sub.dim_arg, sub.meta["target"], sub.meta["effort"])
             lo, up = float(np.real(out[0])), float(np.real(out[1]))
             o = ("ok", lo, up)
         except ValueError as e:
@@ -290,10 +335,10 @@ def run(cs, tier, run_index):
         after = global_state_digest()
         if before != after:
             stage_ran += 1
-        res.log.add("call", i, seed, adv, o[1:] if o[0] == "ok" else o)
-        outcomes.append((seed, o))
+        res.log.add("call", i, subs.index(sub), seed, adv, o[1:] if o[0] == "ok" else o)
+        sub.outcomes.append((seed, o))
         res.checks_sim += 1
-        if not np.array_equal(x, x0):
+        if any(not np.array_equal(t.x, t.x0) for t in subs):
             res.violate("C14.sk.order", why="input operator modified by the call", **meta)
             break
         if o[0] == "exc":
@@ -308,23 +353,23 @@ def run(cs, tier, run_index):
             continue
         res.checks_sim += 2
         if lo > up + slack:
-            res.violate("C14.sk.order", lower=lo, upper=up, op_norm=opn, rng_seed=seed, adversary_draws=adv, **meta)
-        if wit > up + slack:
-            res.violate("C14.sk.witness", witness=wit, upper=up, lower=lo, op_norm=opn, rng_seed=seed, **meta)
+            res.violate("C14.sk.order", lower=lo, upper=up, op_norm=opn, rng_seed=seed, adversary_draws=adv, call_index=i, **meta)
+        if sub.wit > up + slack:
+            res.violate("C14.sk.witness", witness=sub.wit, upper=up, lower=lo, op_norm=opn, rng_seed=seed, call_index=i, **meta)
         if lo > opn + slack:
-            res.violate("C14.sk.order", why="lower bound above the operator norm", lower=lo, op_norm=opn, rng_seed=seed, **meta)
-        if own_upper is not None:
+            res.violate("C14.sk.order", why="lower bound above the operator norm", lower=lo, op_norm=opn, rng_seed=seed, call_index=i, **meta)
+        if sub.own_upper is not None:
             res.checks_sim += 1
-            if lo > own_upper[1] + slack + 1e-5 * max(opn, 1):
-                res.violate("C14.sk.lower_valid", lower=lo, own_upper_bound_on_true_norm=own_upper[1], method=own_upper[0], upper=up, witness=wit, op_norm=opn, rng_seed=seed, **meta)
-            if wit > own_upper[1] + slack + 1e-5 * max(opn, 1):
-                raise AssertionError("reference models disagree: witness %r above own upper bound %r" % (wit, own_upper[1]))
-        if exact is not None:
-            res.probe("exact_regime:" + exact[0])
+            if lo > sub.own_upper[1] + slack + 1e-5 * max(opn, 1):
+                res.violate("C14.sk.lower_valid", lower=lo, own_upper_bound_on_true_norm=sub.own_upper[1], method=sub.own_upper[0], upper=up, witness=sub.wit, op_norm=opn, rng_seed=seed, call_index=i, **meta)
+            if sub.wit > sub.own_upper[1] + slack + 1e-5 * max(opn, 1):
+                raise AssertionError("reference models disagree: witness %r above own upper bound %r" % (sub.wit, sub.own_upper[1]))
+        if sub.exact is not None:
+            res.probe("exact_regime:" + sub.exact[0])
             res.checks_sim += 1
-            if abs(lo - exact[1]) > 1e-7 * max(opn, 1) or abs(up - exact[1]) > 1e-7 * max(opn, 1):
-                res.violate("C14.sk.exact", regime=exact[0], lower=lo, upper=up, reference=exact[1], **meta)
-        elif trans_exact:
+            if abs(lo - sub.exact[1]) > 1e-7 * max(opn, 1) or abs(up - sub.exact[1]) > 1e-7 * max(opn, 1):
+                res.violate("C14.sk.exact", regime=sub.exact[0], lower=lo, upper=up, reference=sub.exact[1], **meta)
+        elif sub.trans_exact:
             res.probe("exact_regime:transpose_exact")
             res.checks_sim += 1
             # exact by the PPT criterion in 2x2 / 2x3: both bounds coincide and no witness may exceed them;
@@ -333,12 +378,13 @@ def run(cs, tier, run_index):
                 res.violate("C14.sk.exact", regime="transpose_exact", lower=lo, upper=up, **meta)
     if stage_ran:
         res.probe("randomized_stage_ran", stage_ran)
-    oks = [(s, o) for s, o in outcomes if o[0] == "ok"]
-    if len(set((round(o[1], 12), round(o[2], 12)) for s, o in oks)) > 1:
-        res.probe("result_differs_between_rng_states")
-    if psd and k < min(dims) and rank > 1 and meta["effort"] >= 1 and not trans_exact:
-        res.probe("sdp_stage_k1" if k == 1 else "sdp_stage_k2")
+    for sub in subs:
+        oks = [(sd, o) for sd, o in sub.outcomes if o[0] == "ok"]
+        if len(set((round(o[1], 12), round(o[2], 12)) for sd, o in oks)) > 1:
+            res.probe("result_differs_between_rng_states")
+        if sub.psd and sub.meta["k"] < min(sub.meta["dims"]) and sub.rank > 1 and sub.meta["effort"] >= 1 and not sub.trans_exact:
+            res.probe("sdp_stage_k1" if sub.meta["k"] == 1 else "sdp_stage_k2")
     res.nontrivial = stage_ran > 0
-    res.case_key = "%016x" % mix(adigest(x0), k, meta["effort"], meta["dim_arg"], repr(meta["target"]), tuple(s for s, _ in outcomes))
-    res.sample = {"operator": meta, "rank": rank, "op_norm": opn, "witness": wit, "calls": [{"rng_seed": s, "result": list(o[1:]) if o[0] == "ok" else list(o)} for s, o in outcomes]}
+    res.case_key = "%016x" % mix([adigest(t.x0) for t in subs], [(t.meta["k"], t.meta["effort"], t.meta["dim_arg"], repr(t.meta["target"])) for t in subs], [tuple(sd for sd, _ in t.outcomes) for t in subs])
+    res.sample = {"operators": [dict(t.meta, rank=t.rank, op_norm=t.opn, witness=t.wit) for t in subs], "calls": [[{"rng_seed": sd, "result": list(o[1:]) if o[0] == "ok" else list(o)} for sd, o in t.outcomes] for t in subs]}
     return res
